@@ -23,6 +23,9 @@ package topic
 //@ ghost tvtype map[ref]int
 //@ ghost tlast map[ref]map[string]int
 //@ ghost nemptied map[ref]map[string]int
+// present[t][topic]: the last Set/Empty on this topic was a Set (the owner's
+// record of what is currently registered under exactly this topic).
+//@ ghost present map[ref]map[string]bool
 //@ ghost lastfirst int
 //@ global topicEnd [value] len(topicEnd) == 1 && topicEnd[0] == 0
 //@ guarded_by Tree.mutex: Tree.root
@@ -294,7 +297,9 @@ package topic
 //@   ensures [released] held == old(held)
 //@   ensures [logged] tlast == old(tlast)[t := old(tlast[t])[topic := payload(value)]]
 //@   ghostset tlast[t][topic] := payload(value)
-//@   modifies any(node.values), anymap(map[string]*node), elemsof(iface), isnode, held, tlast
+//@   ensures [present] present == old(present)[t := old(present[t])[topic := true]]
+//@   ghostset present[t][topic] := true
+//@   modifies any(node.values), anymap(map[string]*node), elemsof(iface), isnode, held, tlast, present
 //@ func (t *Tree) Get(topic string) (r []interface{})
 //@   requires [unlocked] held[t.mutex] == 0
 //@   requires [tree] tree_ok(t) && std(t)
@@ -315,7 +320,9 @@ package topic
 //@   ensures [released] held == old(held)
 //@   ensures [logged] nemptied == old(nemptied)[t := old(nemptied[t])[topic := old(nemptied[t][topic]) + 1]]
 //@   ghostset nemptied[t][topic] := nemptied[t][topic] + 1
-//@   modifies any(node.values), anymap(map[string]*node), elemsof(iface), held, nemptied
+//@   ensures [absent] present == old(present)[t := old(present[t])[topic := false]]
+//@   ghostset present[t][topic] := false
+//@   modifies any(node.values), anymap(map[string]*node), elemsof(iface), held, nemptied, present
 //@ func (t *Tree) Clear(value interface{})
 //@   requires [unlocked] held[t.mutex] == 0
 //@   requires [tree] tree_ok(t)
